@@ -9,12 +9,15 @@ package gitlab
 //@ func getNewTitle
 //@   props C16
 //@   nopanic
+//@   modifies nothing
 //@ func NoteEvent.Kind
 //@   props C16
 //@   nopanic
+//@   modifies nothing
 //@ func NoteEvent.Title
 //@   props C16
 //@   nopanic
+//@   modifies nothing
 //@ func LabelEvent.Kind
 //@   props C16
 //@   nopanic
@@ -53,5 +56,5 @@ package gitlab
 // for every event kind except a comment, whose text may have been edited on the tracker.
 //@ func (*gitlabImporter).ensureIssueEvent
 //@   props C16
-//@   requires event != nil
+//@   requires event != nil && cache.requestUser == nil
 //@   ensures [idempotent-event] cache.opImported(metaKeyGitlabId, event.ID()) && event.Kind() != EventComment ==> cache.bugOps == old(cache.bugOps)
